@@ -71,6 +71,9 @@ const (
 	TopoLeader       Fate = "topo-leader"    // move the leader first, then execute
 	TopoSplitAfter   Fate = "topo-split-aft" // execute, then split (response still delivered)
 	TopoMergeAfter   Fate = "topo-merge-aft" // execute, then merge the region with its right neighbour (response still delivered)
+	// TopoSplitBetween: split the target region at one of the request's own keys other than the smallest, so that the
+	// keys of this one request lie in two regions, then execute (a request with fewer than two keys: as topo-split)
+	TopoSplitBetween Fate = "topo-split-between"
 )
 
 // IsRegionErr reports whether f is a synthesised region error.
@@ -702,6 +705,34 @@ func (c *Conn) SendRequest(ctx context.Context, addr string, req *tikvrpc.Reques
 	}
 }
 
+// keysOf lists the keys of the multi-key requests of the transactional protocol (nil for the others).
+func keysOf(req *tikvrpc.Request) [][]byte {
+	var out [][]byte
+	switch r := req.Req.(type) {
+	case *kvrpcpb.PrewriteRequest:
+		for _, m := range r.Mutations {
+			out = append(out, m.Key)
+		}
+	case *kvrpcpb.PessimisticLockRequest:
+		for _, m := range r.Mutations {
+			out = append(out, m.Key)
+		}
+	case *kvrpcpb.CommitRequest:
+		out = r.Keys
+	case *kvrpcpb.BatchGetRequest:
+		out = r.Keys
+	case *kvrpcpb.BatchRollbackRequest:
+		out = r.Keys
+	case *kvrpcpb.PessimisticRollbackRequest:
+		out = r.Keys
+	case *kvrpcpb.CheckSecondaryLocksRequest:
+		out = r.Keys
+	case *kvrpcpb.ResolveLockRequest:
+		out = r.Keys
+	}
+	return append([][]byte(nil), out...)
+}
+
 // proposes: the commands a store turns into a raft proposal (only those can end with an undetermined result).
 func proposes(t tikvrpc.CmdType) bool {
 	switch t {
@@ -786,6 +817,26 @@ func (n *Net) arrive(rec *RPCRecord, fkey string, ch chan rpcResult, ctx context
 			n.OnExec(rec)
 		}
 		respond(rpcResult{resp, err}, 0)
+	case f == TopoSplitBetween:
+		ok := false
+		if n.Topo != nil {
+			ks := keysOf(rec.Req)
+			sort.Slice(ks, func(i, j int) bool { return bytes.Compare(ks[i], ks[j]) < 0 })
+			at := firstKeyOf(rec.Req)
+			if len(ks) >= 2 {
+				at = ks[1+n.fault.Intn("between"+idk, len(ks)-1)]
+			}
+			if x, is := n.Topo.(interface{ SplitExactly(key []byte) bool }); is {
+				ok = x.SplitExactly(at)
+			} else {
+				ok = n.Topo.SplitAt(at)
+			}
+		}
+		if ok {
+			n.fired(fkey, rec)
+		}
+		n.exec(rec)
+		respond(rpcResult{rec.Resp, rec.ExecErr}, 0)
 	case f == TopoSplit || f == TopoLeader:
 		ok := false
 		if n.Topo != nil {
